@@ -473,10 +473,13 @@ def _prep_iterators(mol: Molecules, shape: tuple[int, int, int], scale: float):
 
     # construct matrices
     center = (np.array(shape) - 1.0) / 2.0
-    starts = intpos - center.astype(np.int32)
+    # The fragment starts at an integer voxel: for even-sized images the offset between
+    # the fragment corner and the molecule is `int(center)`, not `center`.
+    center_int = center.astype(np.int32)
+    starts = intpos - center_int
     stops = starts + shape
     mtxs = _compose_affine_matrices(
-        center, mol.rotator.inv(), output_center=center + residue
+        center, mol.rotator.inv(), output_center=center_int + residue
     )
 
     return starts, stops, mtxs
